@@ -1054,8 +1054,21 @@ func getFiletype(filetype string) (filetype, error) {
 	case "fifo":
 		return fifoFiletype, nil
 	default:
+		// Accept the numeric form that ToCommandLine prints.
+		if v, err := strconv.ParseUint(filetype, 0, 32); err == nil {
+			return filetypeFromNumber(uint32(v), filetype)
+		}
 		return 0, fmt.Errorf("invalid filetype '%v'", filetype)
 	}
+}
+
+func filetypeFromNumber(v uint32, orig string) (filetype, error) {
+	switch ft := filetype(v); ft {
+	case fileFiletype, dirFiletype, socketFiletype, linkFiletype,
+		characterFiletype, blockFiletype, fifoFiletype:
+		return ft, nil
+	}
+	return 0, fmt.Errorf("invalid filetype '%v'", orig)
 }
 
 // String returns the string representation of a filetype
